@@ -4,6 +4,7 @@ import (
 	"fmt"
 	"os"
 	"sort"
+	"strings"
 
 	"github.com/openziti/storage/boltz"
 	"go.etcd.io/bbolt"
@@ -195,5 +196,80 @@ func c06Symmetric(c *core.Ctx, idx int) {
 			}
 			return nil
 		})
+	}
+	if c.Prop.ID == "C09" {
+		c09SameStoreLinks(c, db, st, directed, live, pool)
+	}
+}
+
+// c09SameStoreLinks (run by C09 over the final state of the history): the integrity check of a link collection that
+// stays inside one store. The consistent state yields no report; a link of an entity to itself (or to a neighbour)
+// that has lost one of its two sides is reported by a check-only run and repaired by a fix run.
+func c09SameStoreLinks(c *core.Ctx, db *boltz.DbImpl, st *schema.St, directed bool, live map[string]bool, pool []string) {
+	field, other := "friends", "friends"
+	if directed {
+		field, other = "mentees", "mentors"
+	}
+	run := func(fix bool) ([]string, error) {
+		var reps []string
+		err := db.Update(nil, func(ctx boltz.MutateContext) error {
+			return st.Store.CheckIntegrity(ctx, fix, func(err error, fixed bool) { reps = append(reps, err.Error()) })
+		})
+		return reps, err
+	}
+	reps, err := run(false)
+	c.Eval()
+	info := map[string]any{"two_fields": directed}
+	if err != nil || len(reps) > 0 {
+		c.Violationf("C09 link collection inside one store: integrity check reports on a consistent database", info, "err=%v reports %v", err, reps)
+		return
+	}
+	var a, b string
+	for _, id := range pool {
+		if live[id] && a == "" {
+			a = id
+		} else if live[id] && b == "" {
+			b = id
+		}
+	}
+	if b == "" {
+		return
+	}
+	for _, tc := range []struct{ what, from, to string }{{"an entity linked to itself", a, a}, {"an entity linked to its neighbour", a, b}} {
+		if !directed && tc.from == tc.to {
+			continue // one symbol on both sides: a self link has one entry, there is no side to lose
+		}
+		// make sure the link exists, then remove the far side raw
+		if err := db.Update(nil, func(ctx boltz.MutateContext) error {
+			if err := st.Links[field].AddLinks(ctx.Tx(), tc.from, tc.to); err != nil {
+				return err
+			}
+			lb := bpath(ctx.Tx(), "stores", "peers", tc.to, other)
+			if lb == nil {
+				return fmt.Errorf("no %s bucket of %s", other, tc.to)
+			}
+			return lb.Delete(tkey(tc.from))
+		}); err != nil {
+			c.Violationf("C09 link collection inside one store: could not plant the one-sided link", info, "%v", err)
+			return
+		}
+		reps, err := run(false)
+		c.Eval()
+		c.Count("one_sided_links_inside_one_store", 1)
+		c.Cover("same_store_link", fmt.Sprintf("%s, two fields=%v", tc.what, directed))
+		tinfo := map[string]any{"two_fields": directed, "planted": fmt.Sprintf("%s.%s lists %s, %s.%s does not list %s", tc.from, field, tc.to, tc.to, other, tc.from), "reports": reps}
+		mentioned := false
+		for _, rep := range reps {
+			mentioned = mentioned || (strings.Contains(rep, tc.from) && strings.Contains(rep, tc.to))
+		}
+		if err != nil || !mentioned {
+			c.Violationf("C09 link collection inside one store: a one-sided link ("+tc.what+") is not reported", tinfo, "err=%v, %d reports", err, len(reps))
+		}
+		if _, err := run(true); err != nil {
+			c.Violationf("C09 link collection inside one store: fix run failed", tinfo, "%v", err)
+		}
+		if reps, err := run(false); err != nil || len(reps) > 0 {
+			c.Violationf("C09 link collection inside one store: still reported after a fix run ("+tc.what+")", tinfo, "err=%v reports %v", err, reps)
+		}
 	}
 }
